@@ -455,6 +455,9 @@ def main_wrapper(fn, pid):
     a = ap.parse_args()
     ctx = Ctx(pid, a.tier, a.seed)
     try:
+        if os.environ.get("VERIF_NO_PRELUDE") != "1":
+            from vf import preludes
+            preludes.warm(ctx)          # the process has a history before the check starts (see vf/preludes.py)
         rc = fn(ctx)
     except Machinery as e:
         print(f"MACHINERY-FAILURE {pid}: {e}", file=sys.stderr)
